@@ -271,6 +271,8 @@ func checkC05(c *Ctx) {
 	crossScenarioKeys(c, "R05i", "go")
 	r.Rule("R05h", "codec collectors visit nested declarations unconditionally", 14)
 	collectorRecursion(c, "R05h")
+	r.Rule("R05r", "emitted Go never serialises a value through its String() method: an enum keeps the JSON form its own codec defines", 1)
+	c05NoEnumThroughString(c, "R05r")
 	r.Rule("R05q", "a scratch map an emitted codec function serialises per child is fresh for each child (shared with C04/R04v): a second flattened child is decoded from its own keys only", 1)
 	scratchMapsPerChild(c, "R05q")
 	r.Rule("R05j", "codec emitters are called on every successful path of generateFile (not behind the no-services return)", 2)
@@ -905,4 +907,57 @@ func valKey(v Val) string {
 		return "<nil>"
 	}
 	return v.key()
+}
+
+// c05NoEnumThroughString — R05r. Emitted Go never serialises a value through its String() method
+// (json.Marshal(x.F.String())): for an enum that writes the proto value name and bypasses the MarshalJSON the
+// enum-encoding unit generates for enums with (sebuf.http.enum_value) mappings, so "STATUS_ACTIVE" is sent where the
+// documented custom string "active" belongs.
+func c05NoEnumThroughString(c *Ctx, rid string) {
+	r := c.R
+	nCalls := 0
+	reported := map[string]bool{}
+	for _, ri := range c.goUnitRoots() {
+		if ri.Suffix == "_enum_encoding.pb.go" {
+			continue // the unit that DEFINES the enum's JSON form: its MarshalJSON falls back to the receiver's own name
+		}
+		ex := c.ExploreT(ri.Fn, 6000)
+		for _, v := range ex.Variants {
+			for _, u := range v.Units {
+				fset, f, err := ParseUnit(u)
+				if err != nil {
+					continue
+				}
+				ast.Inspect(f, func(n ast.Node) bool {
+					call, ok := n.(*ast.CallExpr)
+					if !ok || len(call.Args) != 1 {
+						return true
+					}
+					if fun := types.ExprString(call.Fun); fun != "json.Marshal" {
+						return true
+					}
+					nCalls++
+					inner, ok := ast.Unparen(call.Args[0]).(*ast.CallExpr)
+					if !ok || len(inner.Args) != 0 {
+						return true
+					}
+					sel, ok := inner.Fun.(*ast.SelectorExpr)
+					if !ok || sel.Sel.Name != "String" {
+						return true
+					}
+					k := fmt.Sprintf("%s *%s: json.Marshal is not applied to a String() result", pkgShort(ri.Pkg), ri.Suffix)
+					if !reported[k] {
+						reported[k] = true
+						pos := ""
+						if line := fset.Position(call.Pos()).Line; line >= 1 && line <= len(u.Lines) {
+							pos = c.P.Pos(u.Lines[line-1].Pos)
+						}
+						r.Bad(rid, k, pos, "the emitted code writes "+holeFree(types.ExprString(call))+": the value's String() form (for an enum: its proto value name) replaces the type's own JSON form, so an enum with (sebuf.http.enum_value) mappings is sent by name instead of by its documented custom string", nil)
+					}
+					return true
+				})
+			}
+		}
+	}
+	r.OKd(rid, "json.Marshal calls of emitted Go inspected", "", map[string]any{"calls": nCalls, "through_String": len(reported)})
 }
